@@ -8,6 +8,8 @@ import XC.Model.C12
 import XC.Proofs.C12_Util
 import XC.Proofs.C12_Feistel
 import XC.Proofs.C12_Inv2
+import XC.Proofs.C12_Ref
+import XC.Proofs.C12_BfSpec
 namespace XC.C12
 
 /-! ## TEA (any round count) -/
@@ -35,6 +37,25 @@ theorem tea_newCipher_ok_iff (key : Bytes) (rounds : Int) :
 example : (Tea.newCipher (zeros 16) 64).isSome ∧ (Tea.newCipher (zeros 16) 63).isSome = false
     ∧ (Tea.newCipher (zeros 15) 64).isSome = false := by decide
 
+/-- Encrypt = the published algorithm: for every accepted (16-byte key, even non-negative round count)
+    the Go loop — `rounds/2` iterations, running `sum += delta` / `sum = delta*uint32(rounds/2)`, `sum -= delta` —
+    equals the reference recursion "cycle i uses sum = i·delta", and Decrypt the reverse recursion -/
+theorem tea_eq_reference (key : Bytes) (rounds : Int) (c : Tea.Cipher) (h0 : 0 ≤ rounds)
+    (h : Tea.newCipher key rounds = some c) :
+    2 * c.half = rounds.toNat ∧
+    c.key = ⟨be32 key, be32 (key.drop 4), be32 (key.drop 8), be32 (key.drop 12)⟩ ∧
+    ∀ v, Tea.encryptW c v = Tea.refEnc c.key c.half v ∧ Tea.decryptW c v = Tea.refDec c.key c.half v := by
+  unfold Tea.newCipher at h
+  split at h; · cases h
+  split at h; · cases h
+  rename_i hk hr
+  injection h with h
+  subst h
+  refine ⟨?_, rfl, fun v => ⟨Tea.encLoop_eq_ref _ _ v, Tea.decLoop_eq_ref _ _ v⟩⟩
+  simp only
+  have : rounds % 2 = 0 := by simpa using hr
+  omega
+
 /-! ## XTEA -/
 
 /-- for an arbitrary round-key table (any length) -/
@@ -51,6 +72,21 @@ theorem xtea_decrypt_encrypt (tbl : List (UInt32 × UInt32)) (src : Bytes) (h : 
     Xtea.decrypt tbl (Xtea.encrypt tbl src) = src := by
   unfold Xtea.decrypt Xtea.encrypt
   rw [split8_join8, xtea_dec_enc, join8_split8 src h]
+
+/-- Encrypt / Decrypt through the precalculated 64-entry table = the published XTEA recursion with a
+    running sum (32 cycles, sum from 0 resp. from delta·32), key words big-endian -/
+theorem xtea_eq_reference (key : Bytes) (tbl : List (UInt32 × UInt32)) (h : Xtea.newCipher key = some tbl)
+    (v : UInt32 × UInt32) :
+    Xtea.encryptW tbl v = Xtea.refEnc (Xtea.keyWords key) 32 0 v ∧
+    Xtea.decryptW tbl v = Xtea.refDec (Xtea.keyWords key) 32 (Xtea.delta * 32) v := by
+  unfold Xtea.newCipher at h
+  split at h; · cases h
+  injection h with h
+  subst h
+  refine ⟨Xtea.enc_table_eq_ref _ 32 0 v, ?_⟩
+  have := Xtea.dec_table_eq_ref (Xtea.keyWords key) 32 0 v
+  rw [UInt32.zero_add] at this
+  exact this
 
 theorem xtea_newCipher_ok_iff (key : Bytes) : (Xtea.newCipher key).isSome ↔ key.length = 16 := by
   unfold Xtea.newCipher
@@ -93,6 +129,39 @@ theorem blowfish_decrypt_encrypt (c : Blowfish.Box) (src : Bytes) (h : src.lengt
   have := blowfish_dec_enc c (split8 src).1 (split8 src).2
   rw [this]
   exact join8_split8 src h
+
+/-- `getNextWord` (and its inlined copy): the wrapping position variable reads "the key bytes repeated
+    cyclically, as big-endian 32-bit words" -/
+theorem blowfish_getNextWord_cyclic (key : Array UInt8) (hn : 0 < key.size) (t : Nat) :
+    nextWord key ((4 * t) % key.size) = (streamWord key t, (4 * (t + 1)) % key.size) :=
+  nextWord_stream key hn t
+
+/-- `ExpandKey` = Schneier's key schedule: P ^= cyclic key words, then 521 successive encryptions of
+    the running block (from the zero block) written over P, S0, S1, S2, S3 in order -/
+theorem blowfish_expandKey_eq_spec (key : Array UInt8) (hn : 0 < key.size) (c : Blowfish.Box) :
+    Blowfish.expandKey key c = Blowfish.expandKeySpec key c := by
+  unfold Blowfish.expandKey Blowfish.expandKeySpec
+  rw [Blowfish.xorKey_eq_spec key hn, Blowfish.fill_eq_spec]
+
+/-- `expandKeyWithSalt` = the same with the cyclic big-endian salt words xored into the running block
+    before every encryption (bcrypt's eksblowfish) -/
+theorem blowfish_expandKeyWithSalt_eq_spec (key salt : Array UInt8) (hk : 0 < key.size) (hs : 0 < salt.size)
+    (c : Blowfish.Box) : Blowfish.expandKeyWithSalt key salt c = Blowfish.expandKeyWithSaltSpec key salt c := by
+  unfold Blowfish.expandKeyWithSalt Blowfish.expandKeyWithSaltSpec
+  rw [Blowfish.xorKey_eq_spec key hk, Blowfish.fillSalt_eq_spec salt hs]
+
+/-- the code comment "ExpandKey is essentially expandKeyWithSalt with an all-zero salt", as a theorem -/
+theorem blowfish_expandKey_is_zero_salt (key : Array UInt8) (n : Nat) (c : Blowfish.Box) :
+    Blowfish.expandKeyWithSaltSpec key (Array.replicate (n + 1) 0) c = Blowfish.expandKeySpec key c := by
+  unfold Blowfish.expandKeyWithSaltSpec Blowfish.expandKeySpec
+  congr 1
+  funext t
+  have hc : ∀ p, cyc (Array.replicate (n + 1) (0 : UInt8)) p = 0 := by
+    intro p
+    unfold cyc
+    have : p % (n + 1) < n + 1 := Nat.mod_lt _ (by omega)
+    simp [this]
+  simp [streamWord, hc]
 
 /-- NewCipher: exactly key lengths 1..56 -/
 theorem blowfish_newCipher_ok_iff (key : Bytes) :
@@ -198,12 +267,31 @@ theorem rc2_decrypt_encrypt (k : Array UInt16) (src : Bytes) (h : src.length = 8
   unfold Rc2.decrypt Rc2.encrypt
   rw [split8le16_join8le16, rc2_dec_enc, join8le16_split8le16 src h]
 
+/-- RFC 2268 §2 key-expansion parameters: for an effective key length of T1 ≥ 1 bits, T8 is the number
+    of bytes holding those bits and TM the mask of the `T1 - 8(T8-1)` (1 … 8) bits used in the top byte:
+    TM = 2^(T1 - 8(T8-1)) - 1, i.e. 0xff when T1 is a multiple of 8 -/
+theorem rc2_t8_tm_rfc (t1 : Nat) (h : 1 ≤ t1) :
+    8 * (Rc2.t8Of t1 - 1) < t1 ∧ t1 ≤ 8 * Rc2.t8Of t1 ∧
+    Rc2.tmOf t1 = 2 ^ (t1 - 8 * (Rc2.t8Of t1 - 1)) - 1 ∧ (t1 % 8 = 0 → Rc2.tmOf t1 = 255) := by
+  unfold Rc2.tmOf Rc2.t8Of
+  have e : 8 + t1 - 8 * ((t1 + 7) / 8) = t1 - 8 * ((t1 + 7) / 8 - 1) := by omega
+  have hr : 1 ≤ t1 - 8 * ((t1 + 7) / 8 - 1) ∧ t1 - 8 * ((t1 + 7) / 8 - 1) ≤ 8 := by omega
+  have h4 : t1 % 8 = 0 → 255 % 2 ^ (8 + t1 - 8 * ((t1 + 7) / 8)) = 255 := by
+    intro hm
+    have : 8 + t1 - 8 * ((t1 + 7) / 8) = 8 := by omega
+    rw [this]
+  refine ⟨by omega, by omega, ?_, h4⟩
+  rw [e]
+  generalize t1 - 8 * ((t1 + 7) / 8 - 1) = r at hr ⊢
+  have : r = 1 ∨ r = 2 ∨ r = 3 ∨ r = 4 ∨ r = 5 ∨ r = 6 ∨ r = 7 ∨ r = 8 := by omega
+  rcases this with h | h | h | h | h | h | h | h <;> subst h <;> decide
+
 /-- `rc2.New` has no argument checks ("TODO(dgryski): error checking for key length"): it panics
     exactly for an empty key or an effective key length outside 1..1024 bits (t1 ≥ 0) -/
 theorem rc2_expandKey_panics_iff (key : Bytes) (t1 : Nat) :
     (match Rc2.expandKey key t1 with | .panic => True | .ok _ => False) ↔
       key.length = 0 ∨ t1 = 0 ∨ t1 > 1024 := by
-  unfold Rc2.expandKey
+  unfold Rc2.expandKey Rc2.t8Of
   by_cases h1 : key.length = 0
   · simp [h1]
   · by_cases h2 : ((t1 + 7) / 8 == 0 || (t1 + 7) / 8 > 128) = true
